@@ -82,6 +82,11 @@ CHECKS = {
   text="Model checking by trace validation of artefacts: ~190 programs (random compositions in all guard/ignore modes, every operator with mixed signs, witness classes negative / >= p / wider than 256 bit, zero coefficients, empty linear combinations, empty circuit) run on the real pysnark.snarkjsbackend with the modulus rebound to 251, and ~45 at the real bn128 prime; prove() writes the files in a scratch directory, an independent parser decodes them, and TLC decides container well-formedness (magic, version, section table, declared sizes vs content, counts), canonicity of every element, equality with the backend's in-memory trace under the wire numbering one/public/private, and satisfaction of the decoded constraints by the decoded witness.",
   note="nLabels and the nPubOut/nPubIn/nPrvIn split are not judged; certificates are harness-supplied, the integer identities are TLC's.",
   design="5/C10"),
+ "C11": dict(
+  technique="TLC evaluation of ZkifFile.tla (Framing, Header, Constraints, Witness, FileSat, CircuitIndependent) on zkinterface files decoded by an independent FlatBuffers reader; small prime via set_modulus + three curve orders with BigNat limb arithmetic",
+  text="Model checking by trace validation of artefacts: the C10 program families run on pysnark.zkinterface.backend over p=251 (public set_modulus) and in the bn128, bls12-381 and curve25519 configurations; computation.zkif and circuit.zkif are decoded by a reader written against zkinterface.fbs; TLC decides framing (size prefixes, message types per file, NO witness message in circuit.zkif), header (instance ids 1..n with canonical values, free_variable_id, field_maximum = p-1), constraint faithfulness and canonicity, witness ids/values, satisfaction of decoded constraints, and byte-identity of circuit.zkif between twin runs with equal public and different private values.",
+  note="The upstream flatbuffers package is absent: pysnark's builder calls run against shims/flatbuffers (documented wire format); the reader shares no code with it. Certificates harness-supplied, identities decided by TLC.",
+  design="5/C11"),
 }
 
 NOT_YET = "check not built yet in this round (planned, see DESIGN.md section 5)"
